@@ -62,7 +62,11 @@ class Gen:
             pool = self.env.pools.si_prefixes if (not mixed_ok or self.rng.random() < 0.8) else self.env.pools.iec_prefixes
             t = ["pfx", self.rng.choice(pool), t]
         elif r < 0.42:
-            t = ["pfxraw", 10 if not mixed_ok or self.rng.random() < 0.8 else 2, self.rng.randint(-7, 7), t]
+            e = self.rng.randint(-7, 7)
+            k = self.rng.random()
+            # the same exponent as int, integral float or Decimal must denote the same prefix
+            ee = e if k < 0.6 else float(e) if k < 0.8 else ["d", str(e)]
+            t = ["pfxraw", 10 if not mixed_ok or self.rng.random() < 0.8 else 2, ee, t]
         return t
 
     def tree(self, depth, mixed_ok):
